@@ -421,6 +421,9 @@ fn law_of(msg: &str) -> String {
 
 /// Laws selected per property: C04 = state machine / provenance, C01 = value delivery, C14 = supply.
 pub fn run(ctx: &Ctx, name: &str, depth: usize, select: fn(&str) -> bool) {
+    if vcommon::sched::is_worker() {
+        return;
+    }
     let t0 = Instant::now();
     let stats = bfs_classified(
         Vec::<UOp>::new(),
